@@ -86,7 +86,7 @@ func (sd *c09Side) run(c *harness.Ctx, ending *bool, dir int) {
 	var off int64
 	for _, w := range sd.plan {
 		if w.PauseMs > 0 {
-			time.Sleep(msec(w.PauseMs))
+			c.S.Sleep(msec(w.PauseMs))
 		}
 		constrained := sd.checkFrom()
 		buf := make([]byte, w.Size)
